@@ -205,9 +205,7 @@ func concC19(rng *rand.Rand, rounds int, res *concResult) {
 				w.WriteHeader(http.StatusCreated)
 				w.Write(append([]byte("echo:"), b...))
 			}))
-			deadSrv := httptest.NewServer(http.HandlerFunc(func(http.ResponseWriter, *http.Request) {}))
-			du, _ := url.Parse(deadSrv.URL)
-			deadSrv.Close()
+			du, _ := url.Parse("http://" + reservedDeadAddr())
 			lu, _ := url.Parse(live.URL)
 			pe := echo.New()
 			pe.Logger.SetOutput(io.Discard)
